@@ -1,6 +1,11 @@
 // Command vh hosts the in-process monitors; one sub-command per property (c01 … c20).
 package main
 
-import "verifharness/rt"
+import (
+	"verifharness/rt"
+
+	_ "verifharness/mon/c09"
+	_ "verifharness/mon/c12"
+)
 
 func main() { rt.Main() }
